@@ -1,7 +1,7 @@
 SPECIFICATION GenSpec
 CONSTANTS
   Kinds <- KindsQ
-  Alpha <- AlphaG
+  Alpha <- AlphaQ
   MaxLen = 3
   Slacks <- SlacksQ
   Grants <- GrantsQ
